@@ -312,8 +312,10 @@ class ThreadBuilder:
         remap = {}
         for n in b.nodes:
             op = dict(n.op)
-            if op["kind"] == "ATOMIC" and op.get("loc") == "futn":
-                op["ghost"] = dict(inv=OP_FUT)            # stamp: step of the latest poll of the contained future
+            if op["kind"] == "ATOMIC" and op.get("loc") == "act" and fname in ("poll", "check_activated") and op["op"] != "load":
+                # stamp: the step at which the deque last CONSUMED an activation (check_activated read non-zero and
+                # cleared the flag) - the poll of the contained future follows it; wakes after this step are unconsumed
+                op["ghost"] = dict(inv_if_nonzero=OP_FUT)
             remap[n.id] = self.new_node(op)
         cont = {}
 
@@ -438,6 +440,39 @@ THOROUGH = QUICK + [
     (["give", "pending"], [("poll", 1), ("poll", 2), "drop"], ["wake_by_ref", "clone", "wake", "drop"]),
     (["give", "ready"], [("poll", 1), ("poll", 2), ("poll", 2), "drop"], ["wake"]),
 ]
+
+
+def _valid_waker_programs(maxlen):
+    """all programs over wake / wake_by_ref / clone / drop that never use a waker after the thread's last one is gone"""
+    out = []
+
+    def go(prog, held):
+        if prog:
+            out.append(list(prog))
+        if len(prog) == maxlen or held == 0:
+            return
+        for it in ("wake", "wake_by_ref", "clone", "drop"):
+            go(prog + [it], held + (1 if it == "clone" else -1 if it in ("wake", "drop") else 0))
+    go([], 1)
+    return out
+
+
+def generated_family():
+    """thorough tier: every valid waker-thread program of <= 3 operations x owner programs x future scripts"""
+    owners = [[("poll", 1)], [("poll", 1), ("poll", 2)], [("poll", 1), ("poll", 1)], [("poll", 1), "drop"], [("poll", 1), ("poll", 2), "drop"]]
+    futs = [["give", "pending"], ["give", "ready"]]
+    seen = set(prog_name(x) for x in THOROUGH)
+    out = []
+    for wk in _valid_waker_programs(3):
+        for own in owners:
+            for fut in futs:
+                if fut[-1] == "ready" and len([x for x in own if x != "drop"]) < 2:
+                    continue            # the second poll of the future needs a second deque poll
+                sc = (fut, own, wk)
+                if prog_name(sc) not in seen:
+                    seen.add(prog_name(sc))
+                    out.append(sc)
+    return out
 
 
 def prog_name(sc):
